@@ -28,7 +28,7 @@ COMPONENTS = {"real": ["ECAgent.Core.Environment.add_agent / remove_agent", "Sys
               "stub": ["component classes and agents are harness-defined"]}
 PROBES = ["pool_deleted_and_recreated", "leave_from_middle", "two_models_same_type", "spatial_join_leave", "rejoin",
           "attach_after_leaving", "subclass_component", "resident_touch_run", "manual_register", "reject_join", "reject_leave",
-          "model_completed_then_join_leave", "falsy_component_emptied", "ops_from_inside_a_timestep", "agent_is_an_environment", "agent_class_with_class_components", "deprecated_camelcase_spelling", "component_cloned_from_a_registered_one"]
+          "model_completed_then_join_leave", "falsy_component_emptied", "ops_from_inside_a_timestep", "agent_is_an_environment", "agent_class_with_class_components", "deprecated_camelcase_spelling", "component_cloned_from_a_registered_one", "second_environment_bound_to_the_same_model"]
 TECHNIQUE = "deterministic simulation: seeded join/leave/attach/detach histories interleaved over several live models vs a per-model mirror reference; known-finding classifier for resident attach/detach"
 LEVEL_TEXT = ("Seeded search over join/leave/attach/detach histories on 1-3 live models; after every operation, for every "
               "component type and every model, the exposed listing must be element-wise identical (objects, joining order) to "
@@ -162,7 +162,16 @@ def generate(rng, tier):
             for k in range(nag[mi]):
                 if rng.random() < 0.4 and [mi, k] not in [e[:2] for e in envagents]:
                     wolves.append([mi, k])
-    return {"worlds": worlds, "agents": nag, "touch": touch, "ops": ops, "envagents": envagents, "wolves": wolves}
+    side_envs = [mi for mi in range(nm) if rng.random() < 0.2]
+    for mi in side_envs:        # the two extra agents of the second environment get histories of their own (indices beyond nag[mi])
+        for _ in range(rng.randint(2, 8)):
+            k = nag[mi] + rng.randrange(2)
+            r = rng.random()
+            o_ = ({"m": mi, "op": "attach", "k": k, "t": rng.randrange(6)} if r < 0.3 else
+                  {"m": mi, "op": "join", "k": k, "frac": [0.5, 0.5, 0.5]} if r < 0.7 else {"m": mi, "op": "leave", "k": k})
+            ops.insert(rng.randint(0, len(ops)), o_)
+    return {"worlds": worlds, "agents": nag, "touch": touch, "ops": ops, "envagents": envagents, "wolves": wolves,
+            "side_envs": side_envs}
 
 
 class M:
@@ -177,6 +186,8 @@ class M:
         for k, inner in nested.items():
             for j in range(inner):           # component-less inhabitants of the nested environment
                 self.agents[k].add_agent(Agent(f"m{idx}a{k}.in{j}", self.model))
+        self.side = None           # a SECOND environment bound to the same model (its agents are agents of the model too)
+        self.side_idx = set()
         self.residents = []        # agent indices in joining order
         self.left_once = set()
         self.runner = None
@@ -186,6 +197,14 @@ def execute(sc, ctx):
     models = [M(w, max(1, n), i, sc.get("envagents", ()), sc.get("wolves", ())) for i, (w, n) in enumerate(zip(sc["worlds"], sc["agents"]))]
     if not models:
         return
+    for mi_ in sc.get("side_envs", ()):
+        if 0 <= mi_ < len(models) and models[mi_].side is None:
+            mm_ = models[mi_]
+            mm_.side = Environment(mm_.model, id=f"side{mi_}")
+            for j_ in range(2):
+                mm_.side_idx.add(len(mm_.agents))
+                mm_.agents.append(Agent(f"m{mi_}s{j_}", mm_.model))
+            ctx.probe("second_environment_bound_to_the_same_model")
     if sc.get("wolves"):
         ctx.probe("agent_class_with_class_components")
         for T in (CA, CB, CF):
@@ -255,7 +274,11 @@ def execute(sc, ctx):
                     st, v = ctx.call(sm.get_components, T, True)
                     ctx.check(st == "ok" and v is not None and len(v) == len(got) and all(x is y for x, y in zip(v, got)),
                               "listing-strict", f"{where}: {T.__name__}")
-            ctx.check([a.id for a in mm.env] == [mm.agents[k].id for k in mm.residents], "membership", f"{where}: model {mi}")
+            ctx.check([a.id for a in mm.env] == [mm.agents[k].id for k in mm.residents if k not in mm.side_idx], "membership",
+                      f"{where}: model {mi}")
+            if mm.side is not None:
+                ctx.check([a.id for a in mm.side] == [mm.agents[k].id for k in mm.residents if k in mm.side_idx], "membership",
+                          f"{where}: model {mi} (second environment)")
         types_here = [{T for k in mm.residents for T in mm.agents[k].components if T is not PositionComponent} for mm in models]
         if len(models) >= 2 and any(types_here[i] & types_here[j] for i in range(len(models)) for j in range(i)):
             ctx.probe("two_models_same_type")
@@ -340,19 +363,26 @@ def execute(sc, ctx):
             if k in mm.residents:
                 return
             args = ()
-            if mm.ref.spatial:
+            if k in mm.side_idx:
+                ctx.expect_ok("join", mm.side.add_agent, a)
+                mm.residents.append(k)
+                ctx.event("join-side", mi, k)
+            elif mm.ref.spatial:
                 p = [min(int(op["frac"][ax] * (mm.ref.hi(ax) + 1)), max(mm.ref.hi(ax), 0)) if mm.ref.positive(ax) else 0
                      for ax in range(3)]
                 args = mm.ref.real(p)
                 ctx.probe("spatial_join_leave")
-            if op.get("camel"):
+            if k in mm.side_idx:
+                pass
+            elif op.get("camel"):
                 ctx.probe("deprecated_camelcase_spelling")
                 if mm.ref.spatial and not mm.ref.inside([0, 0, 0]):
                     return
                 ctx.expect_ok("join", mm.env.addAgent, a)         # a spatial world places it at the documented default (0, 0, 0)
             else:
                 ctx.expect_ok("join", mm.env.add_agent, a, *args)
-            mm.residents.append(k)
+            if k not in mm.side_idx:
+                mm.residents.append(k)
             if k in mm.left_once:
                 ctx.probe("rejoin")
                 flags["rejoin"] = True
@@ -370,7 +400,8 @@ def execute(sc, ctx):
                 ctx.probe("leave_from_middle")
             mine = {T for T in a.components if T is not PositionComponent}
             others = {T for j in mm.residents if j != k for T in mm.agents[j].components}
-            st, v = ctx.call(mm.env.removeAgent if op.get("camel") else mm.env.remove_agent, a.id)
+            env_ = mm.side if k in mm.side_idx else mm.env
+            st, v = ctx.call(env_.removeAgent if op.get("camel") else env_.remove_agent, a.id)
             if st != "ok":
                 tag = "F2" if isinstance(v, KeyError) and a.id in touched_agents else None
                 ctx.fail("leave-failed", f"model {mi}: remove_agent({a.id}) raised {type(v).__name__}: {v}", finding=tag)
